@@ -108,6 +108,70 @@ func formText(bodyText, q string) *rq {
 type history struct {
 	name string
 	reqs []*rq
+	hdr  string // header configuration of the transports ("" = none, the default server)
+}
+
+func (h history) hdrCfg() string {
+	if h.hdr == "" {
+		return "none"
+	}
+	return h.hdr
+}
+
+// acc: the same request with an Accept header (the header part of the driver encoding is rebuilt)
+func acc(q *rq, accept string) *rq {
+	old := " " + encKV(hdrKV(q.hdrs)) + " "
+	h := q.hdrs.Clone()
+	if h == nil {
+		h = http.Header{}
+	}
+	h.Set("Accept", accept)
+	c := *q
+	c.hdrs = h
+	if q.kind != "unsupported" {
+		if !strings.Contains(q.enc+" ", old) {
+			panic("acc: header encoding not found in " + q.enc)
+		}
+		c.enc = strings.TrimSuffix(strings.Replace(q.enc+" ", old, " "+encKV(hdrKV(h))+" ", 1), " ")
+	}
+	return &c
+}
+
+const (
+	aJSON = "application/json"
+	aGR   = "application/graphql-response+json"
+)
+
+// negotiationHistory: requests over every transport whose Accept headers negotiate DIFFERENT response media
+// types one after the other (and whose status depends on the media type: parse / validation errors are 422
+// under application/json and 400 under application/graphql-response+json), so that a media type - or anything
+// else derived from one request's headers - that sticks in the server shows in a later response.
+func negotiationHistory() []*rq {
+	bad := "{ nope }"
+	return []*rq{
+		acc(post(M("query", S(qPlain))), aGR),
+		post(M("query", S(qPlain))),
+		acc(post(M("query", S(bad))), aJSON),
+		acc(post(M("query", S(bad))), "*/*"),
+		post(M("query", S("{ op"))),
+		acc(get(qPlain, "", nil, nil), aGR),
+		get(qPlain, "", nil, nil),
+		acc(get(bad, "", nil, nil), aJSON),
+		acc(get("{ op", "", nil, nil), "application/*"),
+		get("{ op", "", nil, nil),
+		acc(graphqlReq(qPlain), "text/html, "+aGR+";q=0.9"),
+		graphqlReq(bad),
+		acc(graphqlReq(bad), aGR),
+		acc(formJSON(M("query", S(qPlain))), aGR+"; charset=utf-8"),
+		formJSON(M("query", S(bad))),
+		acc(formText("query="+url.QueryEscape(qPlain), qPlain), "image/png"),
+		acc(formText("query="+url.QueryEscape(bad), bad), aJSON+", */*"),
+		acc(postRaw('S', `{"query":`), aGR),
+		postRaw('S', `{"query":`),
+		acc(post(M("query", S(qPlain))), aJSON),
+		acc(get(qPlain, "", nil, nil), ";;"),
+		post(M("query", S(qPlain))),
+	}
 }
 
 const (
@@ -127,7 +191,7 @@ const (
 // and the same text over every transport.
 func directedHistories() []history {
 	var hs []history
-	add := func(name string, reqs ...*rq) { hs = append(hs, history{name, reqs}) }
+	add := func(name string, reqs ...*rq) { hs = append(hs, history{name: name, reqs: reqs}) }
 
 	add("field-operationName",
 		post(M("query", S(qAB)), M("operationName", S("A"))),
@@ -203,6 +267,22 @@ func directedHistories() []history {
 		post(M("extensions", O(kvp{"persistedQuery", `{"version":2,"sha256Hash":"` + shaOf(qPlain) + `"}`}))),
 		post(M("extensions", O(kvp{"persistedQuery", `"str"`}))),
 		post(M("query", S(qPlain)), M("extensions", O(kvp{"persistedQuery", `null`}))))
+	// a request whose hash does not match its text is rejected and must leave no trace: not on a server that never
+	// saw the hash (later hash-only requests: PersistedQueryNotFound), not on one where the hash is registered
+	// (it keeps denoting the registered text), on any transport
+	add("apq-rejected-registration",
+		post(M("query", S(qPlain)), M("extensions", O(PQ(qAB)))),
+		post(M("extensions", O(PQ(qAB)))),
+		get("", "", nil, []kvp{PQ(qAB)}),
+		get(qM, "", nil, []kvp{PQ(qQ)}),
+		get("", "", nil, []kvp{PQ(qQ)}),
+		post(M("extensions", O(PQ(qQ)))),
+		post(M("query", S(qAB)), M("operationName", S("B")), M("extensions", O(PQ(qAB)))),
+		post(M("query", S(qPlain)), M("extensions", O(PQ(qAB)))),
+		post(M("extensions", O(PQ(qAB))), M("operationName", S("A"))),
+		get("", "B", nil, []kvp{PQ(qAB)}),
+		formJSON(M("query", S(qExt)), M("extensions", O(PQ(qAB)))),
+		post(M("extensions", O(PQ(qAB))), M("operationName", S("A"))))
 	add("same-text-different-operation",
 		post(M("query", S(qAB)), M("operationName", S("A"))),
 		post(M("query", S(qAB)), M("operationName", S("B"))),
@@ -255,5 +335,16 @@ func directedHistories() []history {
 		post(M("query", S(qQ))),
 		&rq{kind: "unsupported", method: "PUT", hdrs: hdr("Content-Type", "application/json"), body: `{"query":"{ op }"}`, enc: "unsupported", tags: []string{"directed"}},
 		post(M("query", S(qPlain))))
+	// the configuration dimension: the same negotiation history against every header configuration of the
+	// transports, forwards and backwards (so each media type is once the FIRST one a transport negotiates)
+	for _, name := range hdrCfgNames {
+		fw := negotiationHistory()
+		hs = append(hs, history{name: "negotiation:" + name, reqs: fw, hdr: name})
+		bw := negotiationHistory()
+		for i, j := 0, len(bw)-1; i < j; i, j = i+1, j-1 {
+			bw[i], bw[j] = bw[j], bw[i]
+		}
+		hs = append(hs, history{name: "negotiation-reversed:" + name, reqs: bw, hdr: name})
+	}
 	return hs
 }
